@@ -60,7 +60,7 @@ CHECKS = {
                       "does not prove absence.",
         "level_note": "Trusts the std::set reference model and that stored records respect the table's precondition (host bits zero, length <= width).",
         "stages": [{"driver": TABLES,
-                    "quick": {"procs": 8, "rc": (2500, 100)},
+                    "quick": {"procs": 8, "rc": (6000, 100)},
                     "thorough": {"procs": 16, "rc": (25000, 300), "timeout": 7200}}],
     },
     "C02": {
@@ -76,7 +76,7 @@ CHECKS = {
                       "the enumeration). Finds lost/duplicated/mis-attributed records for the histories generated; not a proof.",
         "level_note": "Trusts the std::set model; sources are compared by socket pointer identity as the library does.",
         "stages": [{"driver": TABLES,
-                    "quick": {"procs": 8, "rc": (2500, 100)},
+                    "quick": {"procs": 8, "rc": (6000, 100)},
                     "thorough": {"procs": 16, "rc": (25000, 300), "timeout": 7200}}],
     },
     "C09": {
@@ -92,7 +92,7 @@ CHECKS = {
         "level_text": "Sampled exploration of operation histories with the change-log invariant evaluated after every operation.",
         "level_note": "Trusts the std::set model. Only single-threaded histories (the log is per table; ordering across threads is not part of the property).",
         "stages": [{"driver": TABLES,
-                    "quick": {"procs": 8, "rc": (2500, 100)},
+                    "quick": {"procs": 8, "rc": (6000, 100)},
                     "thorough": {"procs": 16, "rc": (25000, 300), "timeout": 7200}}],
     },
     "C10": {
